@@ -102,6 +102,7 @@ class Link(base.BaseObject):
         self._vertices.append(new)
         if (new is not None) and (self not in new.links):
             new.add_to_link(self)
+        self._invalidate_neighbor_caches()
 
     def unlink_from(self, kill: Vertex):
         """
@@ -118,3 +119,16 @@ class Link(base.BaseObject):
 
             if kill is not None:
                 kill.remove_from_link(self)
+            self._invalidate_neighbor_caches()
+
+    def _invalidate_neighbor_caches(self):
+        """
+        Drop the cached neighbors of every vertex on this link.
+
+        When the set of ends changes, the neighbours of the ends that stay
+        change with it, even though their own ``links`` do not.
+        """
+        for vert in self._vertices:
+            if vert is not None:
+                # pylint: disable-next=protected-access
+                vert._qa_neighbors_invalidate()
